@@ -42,6 +42,11 @@ Lemma ob_localhost_const : localhost_direct_const = b "direct".
 Proof. vm_compute. reflexivity. Qed.
 Lemma ob_wrappers_hostname : wrappers_test_url_hostname = true.
 Proof. vm_compute. reflexivity. Qed.
+(* the direct rules judge the host that is contacted: direct-domains also asks about the IDNA-mapped name,
+   isLocalhost maps the name itself *)
+Lemma ob_direct_rules_judge_contacted_host :
+  direct_domains_maps_idna = true /\ localhost_maps_idna_inside = true.
+Proof. vm_compute. split; reflexivity. Qed.
 
 (* internal/martian, dialvia *)
 Lemma ob_connect_switch :
